@@ -110,6 +110,10 @@ type FnCtx struct {
 	inlineDepth int
 	resNames []string
 	labels   map[ast.Stmt]string
+	loopIdxVar map[ast.Node]*types.Var
+	curCallArgs      []string
+	lenientOuter     bool
+	matchedCallSites map[int]bool
 }
 
 const maxPaths = 4000
